@@ -237,6 +237,30 @@ def _cleanup_chain(cur, order, false, Rule, LOC):
                     else:
                         obs.append(ob)
                 continue
+            if top and stm.ast_type == ASTType.Minimize:
+                # a deletion in the body of an objective: only the weaker-copy kind has a theorem (cost tuples kept)
+                body = list(current[i].body)
+                if rhs not in body:
+                    other += 1
+                    continue
+                k = body.index(rhs)
+                current[i] = current[i].update(body=body[:k] + body[k + 1:])
+                same_pred = is_plain_atom(lhs) and is_plain_atom(rhs) and \
+                    (lhs.atom.symbol.name, len(lhs.atom.symbol.arguments)) == (rhs.atom.symbol.name, len(rhs.atom.symbol.arguments))
+                try:
+                    if not same_pred:
+                        raise KeyError
+                    j = next(x for x, l in enumerate(body) if x != k and l == lhs)
+                    before2 = apart(stm.update(body=body))
+                    body2 = list(before2.body)
+                    after2 = before2.update(body=body2[:k] + body2[k + 1:])
+                    fresh = sorted({v.name for v in _collect(body2[k], "Variable") if v.name.startswith("_#")})
+                    obs.append(("anon-obj", ser.stm(before2), ser.stm(after2), ser.stm(Rule(LOC, false, [body2[j]])),
+                                ser.stm(Rule(LOC, false, [body2[k]])), "(" + " ".join(ser.q(v) for v in fresh) + ")",
+                                f"{lhs} supersedes its weaker copy {rhs} in the objective {stm}"))
+                except Exception:  # noqa
+                    other += 1
+                continue
             if not top or stm.ast_type != ASTType.Rule:
                 other += 1
                 continue
@@ -269,6 +293,11 @@ def _cleanup_chain(cur, order, false, Rule, LOC):
                 other += 1
         current[i] = out
     return obs, other
+
+
+def is_plain_atom(lit):
+    return (lit.ast_type == ASTType.Literal and lit.atom.ast_type == ASTType.SymbolicAtom
+            and lit.atom.symbol.ast_type == ASTType.Function)
 
 
 def _inner_deletion(rule, lhs, rhs, false, Rule, LOC):
@@ -615,7 +644,12 @@ def run(rng, n_gen, corpus_limit=None, kinds=None) -> dict:
         tag = f"cl{len(meta)}"
         for order_name, lst in (("", cobs), ("@backward", bobs)):
             for pre, before, after, post, pr, qr, what in lst:
-                if pre == "anon-in":
+                if pre == "anon-obj":
+                    if order_name:
+                        continue
+                    reqs.append(f'(sem_anon_obj {before} {after} {post} {pr} {qr})')   # (before, after, :- p., :- q., F)
+                    meta.append(("cleanup-copy-in-objective", text, what, 1))
+                elif pre == "anon-in":
                     if order_name:
                         continue
                     reqs.append(f'(sem_anon_in {before} {after} {post} {pr} {qr})')   # (before, after, "i j", :- p., ":- q. (F)")
